@@ -89,7 +89,8 @@ def run_tlc(ctx, module, cfg, *, workers=8, simulate=None, depth=None, timeout=6
     """Run TLC on spec/<module>.tla with spec/<cfg>.  simulate=(num) → -simulate num=N.
     Returns TLCResult.  Raises ToolError on parse errors / timeouts."""
     res = TLCResult()
-    meta = ctx.path("tlc-%s-%d" % (cfg.replace(".cfg", ""), len(ctx.tlc_runs)))
+    cfgname = os.path.basename(cfg).replace(".cfg", "")
+    meta = ctx.path("tlc-%s-%d" % (cfgname, len(ctx.tlc_runs)))
     os.makedirs(meta, exist_ok=True)
     jopts = ["-XX:+UseParallelGC", "-Xmx" + xmx, "-Xss1g"]
     if deque:
@@ -162,12 +163,25 @@ def run_tlc(ctx, module, cfg, *, workers=8, simulate=None, depth=None, timeout=6
                         % (rc, logp, text[-3000:]))
     if not res.ok and not expect_error:
         # keep the log for inspection
-        keep = os.path.join(REPLAYS, "%s-tlc-%s.log" % (ctx.pid, cfg.replace(".cfg", "")))
+        keep = os.path.join(REPLAYS, "%s-tlc-%s.log" % (ctx.pid, cfgname))
         os.makedirs(REPLAYS, exist_ok=True)
         shutil.copy(logp, keep)
         res.log = keep
     ctx.tlc_runs.append(res)
     return res
+
+
+def make_cfg(ctx, base, **consts):
+    """Copy spec/<base> into the work dir with the given CONSTANT values replaced."""
+    text = open(os.path.join(SPEC, base)).read()
+    for k, v in consts.items():
+        text, n = re.subn(r"(?m)^(\s*%s\s*=\s*).*$" % re.escape(k), lambda m: m.group(1) + str(v), text)
+        if n != 1:
+            raise ToolError("constant %s not found exactly once in %s" % (k, base))
+    out = ctx.path("%s-%d.cfg" % (base.replace(".cfg", ""), len(os.listdir(ctx.work))))
+    with open(out, "w") as f:
+        f.write(text)
+    return out
 
 
 def require_actions(res, names, what=""):
